@@ -148,8 +148,10 @@ SQL_DDL = """
         batch_num_samp               NDARRAY,
         method_samp                  NDARRAY
     );
+"""
 
-    DELETE FROM checkpoint;
+SQL_CLEAR = """
+    DELETE FROM checkpoint
 """
 
 
@@ -349,6 +351,9 @@ def save_calibrator_state(  # noqa: PLR0913
         cursor.execute(SQL_SAVE_USER_VERSION)
         cursor.executescript(SQL_DDL)
 
+        # executescript() commits; the DELETE must instead belong to the same
+        # transaction as the INSERT, so that a failed save keeps the old checkpoint
+        cursor.execute(SQL_CLEAR)
         cursor.execute(
             SQL_SAVE_QUERY,
             (
